@@ -1,0 +1,20 @@
+//go:build verif
+
+package types
+
+// Contracts for the verification framework in /verif (comment-only file, build tag `verif`).
+
+// C09: how one object of a binding context is rendered: `object` unless full objects are not
+// kept; `filterResult` exactly when a jqFilter is set (or a filter function produced a value),
+// and then it IS the filter result stored for that very object.
+//@ func (ObjectAndFilterResult).Map
+//@   prop C09
+//@   modifies nothing
+//@   ensures [fresh]                fresh(result) && result != nil
+//@   ensures [only-documented-keys] forall(k, string, has(result, k) ==> k == "object" || k == "filterResult")
+//@   ensures [object-key]           has(result, "object") == !o.Metadata.RemoveObject
+//@   ensures [object-value]         !o.Metadata.RemoveObject ==> dyntype(result["object"], *unstructured.Unstructured) && result["object"].(*unstructured.Unstructured) == o.Object
+//@   ensures [filterResult-absent]  o.Metadata.JqFilter == "" && o.FilterResult == nil ==> !has(result, "filterResult")
+//@   ensures [filterResult-present] o.Metadata.JqFilter != "" || o.FilterResult != nil ==> has(result, "filterResult")
+//@   ensures [filterResult-value/no-jq]     o.Metadata.JqFilter == "" && o.FilterResult != nil ==> result["filterResult"] == o.FilterResult
+//@   ensures [filterResult-value/go-value]  o.Metadata.JqFilter != "" && !dyntype(o.FilterResult, string) ==> result["filterResult"] == o.FilterResult
